@@ -49,7 +49,8 @@ THEOREMS = ["OllamaVerif.C18." + t for t in (
     "greedy_argmax", "filters_nonempty_prefix", "topK_isTopK", "topK_returns_input_tokens", "index_in_range",
     "minP_is_threshold_filter", "pick_first_index", "sample_never_panics", "sample_never_panics_fixed",
     "sample_admissible_partial", "sample_admissible_fixed_partial", "never_neg_inf", "result_mem_filters",
-    "pick_search_spec",
+    "pick_search_spec", "greedy_admissible", "hist_each_call", "unseeded_each_call", "newRng_none_iff",
+    "every_call_admissible", "hist_every_call_admissible", "ghist_each_call", "maskLogits_length",
     "deterministic", "hist_nth", "Sample_indep_r", "stream_of_seed", "grammar_step_spec",
     "grammar_retry_admissible_partial", "grammar_retry_admissible_fixed_partial", "grammar_retry_greedy",
     "masked_not_neginf_accepted", "maskLogits_get", "F18_nan_instead_of_token", "F18_guard_fails",
@@ -102,6 +103,28 @@ def big_stack_oracle(ctx):
     return oracle
 
 
+# Branches of the anchored code / of the model the theorems talk about, counted by the driver from what the
+# REAL code did (stats.txt `br_*`, grammar_path_*): the check fails closed when one is never taken in a run.
+REQUIRED_BRANCHES = [
+    "br_empty_input", "br_greedy", "br_greedy_max_not_first",
+    "br_topk_sort", "br_topk_heap_replace", "br_topk_heap_keep",
+    "br_all_neginf_before_draw", "br_shift_several_maxima",
+    "br_topp_shortcut", "br_topp_cut", "br_topp_no_cut", "br_minp_cut", "br_minp_no_cut",
+    "br_pick_first", "br_pick_middle", "br_pick_last", "br_nan_guard",
+    "br_unseeded_call", "unseeded_witness_found", "rng_draws",
+    "grammar_path_fast", "grammar_path_slow", "large_vocab_histories", "env_repro_histories",
+]
+
+
+def coverage_required(ctx):
+    missing = [c for c in REQUIRED_BRANCHES if not ctx.stats.get(c)]
+    ctx.coverage["model_branches_required"] = len(REQUIRED_BRANCHES)
+    ctx.coverage["model_branches_missing"] = missing
+    if missing:
+        ctx.violation("correspondence-coverage", "", "branches of the sampler never taken by the real code in this run: "
+                      + ", ".join(missing), no_input=True)
+
+
 def run(ctx):
     ctx.oracle = big_stack_oracle(ctx)
     ctx.lean_check(MODULES, THEOREMS)
@@ -120,6 +143,8 @@ def run(ctx):
         else:
             ctx.violation("driver-failed", "", out[-1500:], no_input=True)
     ctx.read_stats(outdir)
+    if not ctx.replay:
+        coverage_required(ctx)
     ctx.l1(outdir, normalize=normalize)
     failures = ctx.l2(outdir)
     if not ctx.replay:
